@@ -239,6 +239,18 @@ def run(ctx, report: Report) -> None:
         r4.violation('css_match parse_value types', 'soupsieve/css_match.py (Inputs.parse_value)',
                      f'parse_value parses input types {sorted(parsed_types)}; the range-typed inputs are {sorted(RANGE_TYPES)} '
                      f'(missing {sorted(RANGE_TYPES - parsed_types)}, extra {sorted(parsed_types - RANGE_TYPES)})')
+    # ... whatever the length of the text: only the value-shape regex and the validators decide (number strings have no length
+    # limit - float() has none -, and years may have any number of digits); a value the regex accepts is not refused beforehand
+    for n_ in (1, 11, 4301, 100000):
+        unbounded = RANGE_TYPES - {'time'}          # every valid time string has five characters; the other shapes have no longest member
+        long_types = parse_value_types(ctx, sorted(unbounded), text='7' * n_)
+        r4.instance({'function': 'Inputs.parse_value', 'value_length': n_, 'types_parsed_to_a_tuple': sorted(long_types)}, key=f'parse_value-len{n_}')
+        r4.obligation(long_types == unbounded)
+        if long_types != unbounded:
+            r4.violation(f'css_match parse_value length {n_}', 'soupsieve/css_match.py (Inputs.parse_value)',
+                         f'a value of {n_} characters that its value-shape regex accepts and its validators pass is not parsed for the types '
+                         f'{sorted(unbounded - long_types)}: something besides the regex and the validators decides (a length test?)')
+            break
     _, mr = src.func('css_match.CSSMatch.match_range')
     itype_var = None
     if css_in is None:
@@ -448,7 +460,7 @@ def week_count_table(ctx, rule):
                            f'{"accepted" if odd in over_years else "now rejected while its siblings are accepted"}')
 
 
-def parse_value_types(ctx, candidates, uses=None):
+def parse_value_types(ctx, candidates, uses=None, text='v'):
     """The type names for which Inputs.parse_value returns a tuple when the value has the shape the type asks for."""
     import re._parser as sp
     from ..interp import Raised, call_function
@@ -475,7 +487,7 @@ def parse_value_types(ctx, candidates, uses=None):
         stubs[f're.Pattern.{how}'] = matcher(how)
     for itype in candidates:
         try:
-            res = call_function(ctx, 'css_match.Inputs.parse_value', [itype, 'v'], {}, stubs, None)
+            res = call_function(ctx, 'css_match.Inputs.parse_value', [itype, text], {}, stubs, None)
         except Raised:
             continue
         except miniev.Unsupported as e:
